@@ -16,7 +16,7 @@ MODELLED = {
     "src/rime/composition.cc": r"Composition::(GetPreedit|GetPrompt|GetCommitText|HasFinishedComposition)",
     "src/rime/menu.cc": None,
     "src/rime/engine.cc": r"ConcreteEngine::(ProcessKey|OnContextUpdate|Compose|CalculateSegmentation|TranslateSegments|OnCommit|OnSelect|"
-                          r"CommitText|FormatText|OnOptionUpdate)",
+                          r"CommitText|FormatText|OnOptionUpdate|InitializeOptions)",
     "src/rime/gear/abc_segmentor.cc": r"AbcSegmentor::Proceed",
     "src/rime/gear/fallback_segmentor.cc": r"FallbackSegmentor::Proceed",
     "src/rime/gear/speller.cc": None,
@@ -25,6 +25,9 @@ MODELLED = {
     "src/rime/gear/editor.cc": None,
     "src/rime/gear/punctuator.cc": None,      # digit-separator functions are outside the model (configured off)
     "src/rime/gear/shape.cc": None,
+    "src/rime/gear/ascii_composer.cc": None,
+    "src/rime/gear/key_binder.cc": None,      # select_schema (`select:` bindings) is outside the model
+    "src/rime/switches.cc": r"Switches::(FindOptionFromConfigItem|FindOption|OptionByName|ByIndex|Cycle|Reset|FindRadioGroupOption)",
     "src/rime/service.cc": r"(Session::(ProcessKey|CommitComposition|ClearComposition|OnCommit|ResetCommitText|Activate)|"
                            r"Service::(CreateSession|GetSession|DestroySession|CleanupAllSessions))",
 }
